@@ -1,6 +1,7 @@
 // C12: drive tGswTorus32PolynomialDecompH / tGswTLweDecompH and print one row per coefficient.
 #include <tfhe.h>
 #include "vh.h"
+#include <thread>
 
 static void rows(const char* fn, int l, int bg, int N, int comp, const std::vector<uint32_t>& in, const TorusPolynomial* after, const IntPolynomial* dec) {
     for (int j = 0; j < N; j++) {
@@ -80,7 +81,16 @@ int main(int argc, char** argv) {
         for (int pass = 0; pass < 2; pass++) for (size_t q = 0; q < ls.size(); q++) { size_t i = pass ? ls.size() - 1 - q : q; int li = (int)ls[i], bi = (int)bgs[i];
             std::vector<uint32_t> v = edge_vals(li, bi, rng, nr); if (v.size() > 160) v.resize(160);
             run_poly(li, bi, (q % 2) ? 16 : 1024, v); run_tlwe(li, bi, (q % 2) ? 1024 : 16, 1 + (int)((q + pass) % 2), rng, v); }
-    } else { fprintf(stderr, "usage: h_gadget grid|edges|seq --l L --bg B ...\n"); return 2; }
+    } else if (!strcmp(mode, "conc")) {       // four threads decompose their own samples into their own buffers at the same time (rows printed thread after thread)
+        std::vector<long> ls = vh_list(vh_sarg(argc, argv, "--ls", "3,2")), bgs = vh_list(vh_sarg(argc, argv, "--bgs", "7,10")); long nr = vh_arg(argc, argv, "--rand", 32); unsigned seed = (unsigned)vh_arg(argc, argv, "--seed", 1);
+        const int T = 4; std::vector<char*> bufs(T, (char*)0); std::vector<size_t> lens(T, 0); std::vector<std::thread> th;
+        for (int t = 0; t < T; t++) th.emplace_back([&, t]() { FILE* m = open_memstream(&bufs[t], &lens[t]); vh_out = m; VhRng r(seed * 31 + t);
+            for (int rep = 0; rep < 3; rep++) for (size_t q = 0; q < ls.size(); q++) { int li = (int)ls[(q + t) % ls.size()], bi = (int)bgs[(q + t) % ls.size()]; std::vector<uint32_t> v = edge_vals(li, bi, r, nr); if (v.size() > 96) v.resize(96);
+                run_tlwe(li, bi, 16, 1 + (int)((q + t) % 2), r, v); run_poly(li, bi, 16, v); }
+            fflush(m); fclose(m); vh_out = stdout; });
+        for (auto& x : th) x.join();
+        for (int t = 0; t < T; t++) if (bufs[t]) { fwrite(bufs[t], 1, lens[t], stdout); free(bufs[t]); }
+    } else { fprintf(stderr, "usage: h_gadget grid|edges|seq|conc --l L --bg B ...\n"); return 2; }
     fflush(stdout);
     return 0;
 }
